@@ -163,6 +163,36 @@ def items(src, start=0, end=None):
                         j += 1
                         break
             elif k == "ident" and depth == 0 and not in_attr and kind is None:
+                # macro invocation item (`define_table! { .. }`, `foo!(..);`): an item of its own
+                la = j + 1
+                while la < n and toks[la][0] in ("ws", "comment"):
+                    la += 1
+                if la < n and toks[la][1] == "!" and t not in KEYWORDS_BRACE:
+                    kind, name = "macro_call", t
+                    # find the delimiter and its match
+                    lb = la + 1
+                    while lb < n and toks[lb][0] in ("ws", "comment"):
+                        lb += 1
+                    d2, jj = 0, lb
+                    while jj < n:
+                        kk, tt, pp = toks[jj]
+                        if kk == "punct" and tt in "([{":
+                            d2 += 1
+                        elif kk == "punct" and tt in ")]}":
+                            d2 -= 1
+                            if d2 == 0:
+                                break
+                        jj += 1
+                    brace = lb < n and toks[lb][1] == "{"
+                    jj += 1
+                    if not brace:
+                        while jj < n and toks[jj][0] in ("ws", "comment"):
+                            jj += 1
+                        if jj < n and toks[jj][1] == ";":
+                            jj += 1
+                    head_end = toks[jj - 1][2]
+                    j = jj
+                    break
                 if t in KEYWORDS_BRACE or t in KEYWORDS_SEMI:
                     # `const fn`, `unsafe fn`, `extern "C" fn`
                     if t in ("const", "extern"):
